@@ -89,12 +89,15 @@ class CharacterConstant(Token):
     Represents a character constant.
     """
 
+    # Encoding prefix (L, u or U) of a wide character constant.
+    prefix: str = ""
+
     def sanitized_str(self):
         """
         Return this character constant quoted for stringification.
         """
         escaped = self.token.replace("\\", "\\\\").replace('"', '\\"')
-        return f"'{escaped}'"
+        return f"{self.prefix}'{escaped}'"
 
 
 @dataclass
@@ -390,6 +393,17 @@ class Lexer:
         if not characters:
             self.pos = col
             raise TokenError("Invalid identifier.")
+
+        # L'a', u'a' and U'a' are wide character constants, not an
+        # identifier followed by a character constant.
+        if "".join(characters) in ["L", "u", "U"] and self.read() == "'":
+            try:
+                constant = self.character_constant()
+                constant.col = col
+                constant.prefix = "".join(characters)
+                return constant
+            except TokenError:
+                pass
 
         identifier = Identifier(
             self.line,
@@ -2083,7 +2097,11 @@ class ExpressionEvaluator(Parser):
         # Convert from character literals to integer value.
         try:
             constant = self.match_type(CharacterConstant)
-            return np.int64(self.__character_value(constant.token))
+            value = self.__character_value(constant.token, constant.prefix)
+            # char16_t and char32_t are unsigned types.
+            if constant.prefix in ["u", "U"]:
+                return np.uint64(value)
+            return np.int64(value)
         except ParseError:
             self.pos = initial_pos
 
@@ -2108,7 +2126,7 @@ class ExpressionEvaluator(Parser):
         )
 
     @staticmethod
-    def __character_value(token):
+    def __character_value(token, prefix=""):
         """
         Return the integer value of the character constant spelled `token`
         (without the enclosing quotes), decoding escape sequences.
@@ -2132,6 +2150,9 @@ class ExpressionEvaluator(Parser):
             value = escapes[token[1]]
         else:
             value = ord(token[1])
+        if prefix:
+            # Wide character types hold the value as it is.
+            return value
         # Plain char is signed: values above 127 are negative.
         value &= 0xFF
         return value - 256 if value > 127 else value
